@@ -48,6 +48,7 @@ var props = map[string]*Prop{
 			{Name: "env-rawenvp", Pkg: "pkg/diff", Test: "TestVerifC15Envp", Shards: sh(2, 2)},
 			{Name: "env-loader", Pkg: "pkg/diff", Test: "TestVerifC15Loader", Shards: sh(2, 4)},
 			{Name: "env-deps-callsite", Pkg: "internal/cli", Test: "TestVerifC15Deps", Shards: sh(1, 1)},
+			{Name: "env-deps-real-loader", Pkg: "internal/cli", Test: "TestVerifC15DepsReal", Shards: sh(4, 4)},
 		},
 	},
 	"C20": {
